@@ -10,10 +10,11 @@
   Go `int` arithmetic on token values wraps at 64 bits.
   Strings are ASCII, as `List Char`.  Core Lean only.
 -/
+import ClairModel.Lib.Order
 import ClairModel.Model.VerCommon
 
 namespace ClairModel.VerApk
-open ClairModel.VerCommon
+open ClairModel.Order ClairModel.VerCommon
 
 /-- Token types with their Go values (`tokenInvalid = -1 … tokenEnd = 6`). -/
 inductive Tok
@@ -159,8 +160,9 @@ def cmpLoop : Nat → Reader → Reader → Tok → Tok → Int → Int → (Rea
       cmpLoop fuel r1' r2' at'' bt' av' bv'
     else (r1, r2, at', bt, av, bv)
 
-/-- `compare` -/
-def compare (ver1 ver2 : Str) : Ordering :=
+/-- `compare`, transcribed statement by statement (the lock-step loop, then
+    the decisions after it). -/
+def compareLoop (ver1 ver2 : Str) : Ordering :=
   let (r1, r2, at', bt, av, bv) :=
     cmpLoop (2 * (ver1.length + ver2.length) + 8) { rest := ver1 } { rest := ver2 } .digit .digit 0 0
   -- "value of this token differs?"
@@ -178,5 +180,47 @@ def compare (ver1 ver2 : Str) : Ordering :=
       else if at'.val > bt.val then .lt
       else if at'.val < bt.val then .gt
       else .eq
+
+/-! ### The same comparison as a scan over two token streams
+
+Each `getToken` call reads only its own reader and its own previous token
+type, so the two sides of the lock-step loop are independent streams
+`(type₀ = DIGIT, value₀), (type₁, value₁), …` ending with `END` or `INVALID`.
+The loop walks both while the types agree and the values agree; what follows
+the loop decides on the first difference: a different value, else a different
+type (a pre-release suffix, whose value is negative, sorts lowest; otherwise
+the token type with the smaller number wins).  Both formulations are compared
+with the real code on every run (`apkcmp`, `apkcmp2`); the theorems are about
+this one, and `vulnerableAlpine` uses it. -/
+
+/-- The stream of `(token type, value)` of a version from a reader position;
+    the last element is the terminal type (`END` / `INVALID`) with value 0.
+    `fuel` bounds the length (more than two tokens per character never occur). -/
+def toks : Nat → Reader → Tok → List (Tok × Int)
+  | 0, _, _ => [(.invalid, 0)]
+  | fuel + 1, rd, t =>
+    if t = .tEnd ∨ t = .invalid then [(t, 0)]
+    else
+      let (v, t', rd') := getToken rd t
+      (t, v) :: toks fuel rd' t'
+
+def tokens (ver : Str) : List (Tok × Int) := toks (2 * ver.length + 4) { rest := ver } .digit
+
+/-- The decision on one pair of stream elements; `eq` = keep walking. -/
+def elemCmp (a b : Tok × Int) : Ordering :=
+  if a.1 = b.1 then
+    -- same token type: the loop goes on while the values agree
+    if a.1 = .tEnd ∨ a.1 = .invalid then .eq           -- "both have TOKEN_END or TOKEN_INVALID next"
+    else if a.2 < b.2 then .lt                          -- "value of this token differs?"
+    else if a.2 > b.2 then .gt
+    else .eq
+  else if a.1 = .suffix ∧ a.2 < 0 then .lt              -- pre-release suffix on the left
+  else if b.1 = .suffix ∧ b.2 < 0 then .gt              -- … on the right
+  else if a.1.val > b.1.val then .lt                    -- `if at > bt return apkVersionLess`
+  else if a.1.val < b.1.val then .gt
+  else .eq
+
+/-- `compare` as the scan of the two streams. -/
+def compare (ver1 ver2 : Str) : Ordering := lexCmp elemCmp (tokens ver1) (tokens ver2)
 
 end ClairModel.VerApk
